@@ -112,7 +112,7 @@ def run_program(tier, idx, prog=None, plan=None, seed=None, kms=None):
               if idx % 10 == 3 and ci < 3 and prog['kind'] == 'func' and prog['npos'] >= 1 and args and not malformed:
                   # stratum: a plain function whose first argument is an object with a non-method attribute named like the
                   # function, and whose first parameter is hidden by name
-                  args = [sk.OBJS[(idx // 10 + ci) % 2]] + list(args[1:])
+                  args = [sk.OBJS[(idx // 10 + ci) % len(sk.OBJS)]] + list(args[1:])
                   if sk.pnames(prog)[0] not in ign: ign = tuple(ign) + (sk.pnames(prog)[0],)
                   tags['first-argument-has-attribute-named-like-the-function'] += 1
             # the call group: base, respellings (same binding), single-value mutations
@@ -301,7 +301,9 @@ def run_program(tier, idx, prog=None, plan=None, seed=None, kms=None):
                         mod, nm = DECORATORS[idx % 12]
                         D = getattr(klepto.safe if mod == 'safe' else klepto, nm)
                         ignarg = ign[0] if (len(ign) == 1 and (idx // 12) % 2 == 0) else ((list(ign) if ci % 2 else ign) if ign else None)
-                        d = D(keymap=sk.make_km(kmk, kmo), ignore=ignarg)(f)
+                        # (the bounded classes hand maxsize=None / maxsize=0 over to inf_cache / no_cache in __new__: every third program goes that way)
+                        msz = {} if nm in ('no_cache', 'inf_cache') or (idx // 12) % 3 == 0 else dict(maxsize=[None, 0][(idx // 36) % 2])
+                        d = D(keymap=sk.make_km(kmk, kmo), ignore=ignarg, **msz)(f)
                         # C18: `__wrapped__` is the callable that was decorated - whatever kind of callable it is
                         if ci == 0 and getattr(d, '__wrapped__', None) is not f:
                             viol.append(dict(prop='C18', sig=dict(kind='wrapped-is-not-the-original', callable=prog.get('kind')),
@@ -309,7 +311,7 @@ def run_program(tier, idx, prog=None, plan=None, seed=None, kms=None):
                                                  mod, nm, prog.get('kind'), getattr(d, '__wrapped__', None), f), item=dict(ci=ci)))
                         ent['key'] = d.key(*a, **k)
                         # C18: key() is the slot - make the call (when CPython accepts it) and look for the key among what it stored
-                        if rec['bind'] is not None and nm != 'no_cache':
+                        if rec['bind'] is not None and nm != 'no_cache' and msz.get('maxsize', 1) != 0:
                             try:
                                 hash(ent['key'])
                                 before = set(d.__cache__()); d(*a, **k); added = set(d.__cache__()) - before
@@ -363,6 +365,12 @@ def run_program(tier, idx, prog=None, plan=None, seed=None, kms=None):
                                                  ea['km'][0], ea['km'][1], swaps[0]['kw'], swaps[1]['kw'], ea['key']), item=dict(ci=swaps[0]['ci'])))
             base = group_keys[0][1]
             for g, rec in group_keys[1:]:
+                # C11: whether key generation SUCCEEDS must not depend on the value of an ignored argument either
+                if g[0] == 'mutate' and mutated_selected(prog, sel, g[3][0], g[3][1], g[1], inst_first) is True \
+                   and ('exc' in base['keygen']) != ('exc' in rec['keygen']):
+                    viol.append(dict(prop='C11', sig=dict(kind='ignored-argument-decides-whether-there-is-a-key', how=g[3][0], exc=(base['keygen'].get('exc') or rec['keygen'].get('exc'))),
+                                     msg='ignore=%r: %r vs %r differ only in an ignored argument; `_keygen` gives %r for one and %r for the other' % (
+                                         ign, (base['args'], base['kw']), (rec['args'], rec['kw']), base['keygen'].get('exc', 'a key'), rec['keygen'].get('exc', 'a key')), item=dict(ci=rec['ci'])))
                 for eb, er in zip(base['keys'], rec['keys']):
                     if 'key' not in eb or 'key' not in er: continue
                     kmk, kmo = eb['km']
@@ -371,6 +379,8 @@ def run_program(tier, idx, prog=None, plan=None, seed=None, kms=None):
                     if g[0] == 'respell' and rec['can'] == base['can'] and base['can'] is not None:
                         tags['C09-pair'] += 1
                         if not same:
+                            # (non-flat encoded keys depend on the order of the keyword dict `_keygen` returns: listed weakness F11; whether THIS pair
+                            #  is one the unchanged code already keys differently is judged with the model, in `analyse`)
                             order_only = (not flat) and kmk != 'raw'
                             viol.append(dict(prop='C09', sig=dict(kind='respelled-call-different-key', flat=flat, keymap=kmk, nonflat_order=order_only,
                                                                   ignore_dstar='**' in ign, partial=prog['kind'].startswith('partial')),
@@ -533,6 +543,7 @@ def analyse(prop, progs):
         d = None
         if what == 'keygen':
             impl = rec['keygen']
+            rec['_model_keygen'] = m
             if 'exc' in impl:
                 continue      # the code raised (e.g. IndexError on an empty signature): outside the model
             ign_names = bool(rec['ign'])   # NULL entries are inserted in *set* iteration order
@@ -588,6 +599,28 @@ def analyse(prop, progs):
         if d and (pi, what) not in seen:
             seen.add((pi, what))
             divs.append(dict(detail=dict(d, call=dict(ign=rec['ign'], args=rec['args'], kw=rec['kw']), src=p['src']), prog=p['prog'], idx=p['idx']))
+    # C09 on NON-FLAT encoded keys, with the model as the judge of what the unchanged code does: two spellings of one call for which the
+    # model's `_keygen` returns the SAME ordered keyword list get the same (args, kwds) structure from the unchanged code, hence one key
+    # under every encoder.  (Pairs the model orders differently are the listed weakness F11.)
+    for p in progs:
+        groups = {}
+        for rec in p['recs']: groups.setdefault(rec['ci'], []).append(rec)
+        for recs in groups.values():
+            base = recs[0]
+            if base.get('gkind') != 'base' or base.get('can') is None or base.get('ign') or '_model_keygen' not in base: continue
+            for rec in recs[1:]:
+                if rec.get('gkind') != 'respell' or rec.get('can') != base['can'] or rec.get('_model_keygen') != base['_model_keygen']: continue
+                for eb, er in zip(base['keys'], rec['keys']):
+                    if 'key' not in eb or 'key' not in er: continue
+                    kmk, kmo = eb['km']
+                    if kmo.get('flat', True) or kmk == 'raw' or keys_equal(eb['key'], er['key']): continue
+                    p['viol'].append(dict(prop='C09', sig=dict(kind='respelled-call-different-key', flat=False, keymap=kmk, nonflat_order=False, model_same_order=True,
+                                                                 ignore_dstar=False, partial=p['prog']['kind'].startswith('partial')),
+                                          msg='%s%r: %r and %r bind identically, the unchanged `_keygen` returns one and the same ordered (args, kwds) for both, but the keys are %.160r != %.160r' % (
+                                              kmk, kmo, (base['args'], base['kw']), (rec['args'], rec['kw']), eb['key'], er['key']), item=dict(ci=rec['ci'])))
+                    break
+    for p in progs:
+        for rec in p['recs']: rec.pop('_model_keygen', None)
     return divs
 
 
